@@ -29,7 +29,7 @@ for ID in $IDS; do
   KEY=$(echo "$RES" | grep -a -A1 "^VIOLATION" | grep -a "^  [a-z_]*|" | head -1 | sed 's/ (observed.*//; s/^  //')
   [ -z "$KEY" ] && KEY=$(echo "$RES" | grep -a -A1 "^VIOLATION" | sed -n 2p | cut -c1-60)
   if [ $RC -eq 2 ] && [ "$P" = C12 ]; then
-    M=$(cd $MV/miri && MIRIFLAGS="-Zmiri-many-seeds=0..16 -Zmiri-preemption-rate=0.1" timeout 1500 cargo +nightly miri run --offline 2>&1 | grep -a -m1 "MIRI-VIOLATION")
+    M=$(cd $MV/miri && for SET in 0 1; do MIRIFLAGS="-Zmiri-many-seeds=0..16 -Zmiri-preemption-rate=0.1" timeout 1500 cargo +nightly miri run --offline -- $SET 2>&1; done | grep -a -m1 "MIRI-VIOLATION")
     [ -n "$M" ] && RC=1 && KEY="miri: $M"
   fi
   echo "$ID $P exit=$RC ($HOW) $KEY" >> "$OUT"
